@@ -35,7 +35,7 @@ TraceInit ==
     /\ where = [p \in Payloads |-> NoWhere]
     /\ xobs = [x \in DOMAIN Execs |-> NoX]
     /\ segopen = [f \in {"asyncio", "trio", "threading"} |-> 0]
-    /\ marks = [aborted |-> FALSE, straystart |-> FALSE, quiescent |-> FALSE, timeouts |-> 0, blocked |-> FALSE, coroafterblock |-> 0, failedatq |-> FALSE, lostatq |-> FALSE,
+    /\ marks = [aborted |-> FALSE, straystart |-> FALSE, loopexited |-> FALSE, earlyfail |-> FALSE, quiescent |-> FALSE, timeouts |-> 0, blocked |-> FALSE, coroafterblock |-> 0, failedatq |-> FALSE, lostatq |-> FALSE,
                 stuckatq |-> FALSE, exfail |-> FALSE, execstuck |-> FALSE, adoptstuck |-> FALSE, shutstuck |-> FALSE, restartfail |-> FALSE, stall |-> FALSE]
 
 Step_ == l <= Len(Tr.events) /\ l' = l + 1 /\ UNCHANGED tid
@@ -76,7 +76,10 @@ TEnd == /\ Ev.e = "End"
         /\ pst' = [pst EXCEPT ![Ev.p] = "done"]
         /\ endhow' = [endhow EXCEPT ![Ev.p] = Ev.how]
         /\ h' = [h EXCEPT !.stepafter = @ \/ (Coroutine(Ev.p) /\ After)]
-        /\ UNCHANGED <<phase, guard, starts, cleanleft, adoptret, sigint, shut, result, xst, where, xobs, segopen, marks>>
+        /\ UNCHANGED <<phase, guard, starts, cleanleft, adoptret, sigint, shut, result, xst, where, xobs, segopen>>
+        \* a failure that happens while the service loop is still running - even if shutdown()
+        \* has already been asked for - meets runners that are all still open
+        /\ marks' = [marks EXCEPT !.earlyfail = @ \/ (Ev.how \in {"val", "exc", "base"} /\ phase[1] = "running" /\ ~marks.loopexited /\ ~sigint)]
         /\ nc' = (nc \/ ~End(Ev.p, Ev.how))
 TCancelled == /\ Ev.e = "Cancelled"
               /\ pst' = [pst EXCEPT ![Ev.p] = IF cleanleft[Ev.p] = 0 THEN "done" ELSE "cancelled"]
@@ -156,6 +159,10 @@ TExecRet == /\ Ev.e = "ExecRet" /\ xst' = [xst EXCEPT ![Ev.x] = "returned"]
 TExecRefused == /\ Ev.e = "ExecRefused" /\ xst' = [xst EXCEPT ![Ev.x] = "returned"]
                 /\ UNCHANGED <<phase, guard, pst, starts, endhow, cleanleft, adoptret, sigint, shut, result, h, where, xobs, segopen, marks>>
                 /\ nc' = (nc \/ xst[Ev.x] # "called")
+\* the service loop of the runtime has left (it noticed the shutdown flag, or was cancelled)
+TSvcLoopExit == /\ Ev.e = "SvcLoopExit"
+                /\ marks' = [marks EXCEPT !.loopexited = TRUE]
+                /\ UNCHANGED <<phase, guard, pst, starts, endhow, cleanleft, adoptret, sigint, shut, result, xst, h, where, xobs, segopen, nc>>
 TSeg == /\ Ev.e \in {"SegEnter", "SegExit"}
         /\ segopen' = [segopen EXCEPT ![Ev.flavour] = IF Ev.e = "SegEnter" THEN @ + 1 ELSE (IF @ > 0 THEN @ - 1 ELSE 0)]
         /\ h' = [h EXCEPT !.overlap = @ \/ (Ev.e = "SegEnter" /\ Ev.flavour # "threading" /\ segopen[Ev.flavour] > 0)]
@@ -183,7 +190,7 @@ TMark == /\ Ev.e \in {"Quiescent", "Timeout", "Block", "CleanupDone"}
 
 TraceNext == Step_ /\ (TAdoptCall \/ TAdoptRet \/ TSvcNew \/ TStart \/ TStep \/ TEnd \/ TCancelled \/ TCleanupStep
                        \/ TAcceptCall \/ TRunningSet \/ TCloseBegin \/ TCloseEnd \/ TAcceptRet \/ TSigint
-                       \/ TShutdownCall \/ TShutdownRet \/ TExecCall \/ TXStart \/ TXEnd \/ TExecRet \/ TExecRefused \/ TSeg \/ TMark)
+                       \/ TShutdownCall \/ TShutdownRet \/ TExecCall \/ TXStart \/ TXEnd \/ TExecRet \/ TExecRefused \/ TSvcLoopExit \/ TSeg \/ TMark)
 TraceSpec == TraceInit /\ [][TraceNext]_tvars
 
 -----------------------------------------------------------------------------
@@ -211,6 +218,9 @@ ExecRightFlavour == \A x \in DOMAIN Execs : xobs[x].starts > 0 =>
 NoOverlap == ~h.overlap
 \* at the quiescence marker (the script has waited for the runtime to react)
 FailStopObserved == ~marks.failedatq
+\* C01 while a stop has been requested: a failure that met open runners (before the service loop
+\* left) ends the run by raising, the shutdown() in progress notwithstanding
+FailStopWhileStopping == (marks.earlyfail /\ phase[1] = "ended") => result[1].kind # "returned"
 ExactlyOnceObserved == ~marks.lostatq
 TerminationObserved == ~marks.stuckatq
 ExecNotAFailureObserved == ~marks.exfail
@@ -237,6 +247,7 @@ Monitor ==
     /\ Mon("ExactlyOnceObserved", ExactlyOnceObserved)
     /\ Mon("RightFlavour", RightFlavour)
     /\ Mon("NoStrayStart", NoStrayStart)
+    /\ Mon("FailStopWhileStopping", FailStopWhileStopping)
     /\ Mon("ArgsExact", ArgsExact)
     /\ Mon("ExecOnce", ExecOnce)
     /\ Mon("ExecArgsExact", ExecArgsExact)
